@@ -66,12 +66,14 @@ def run(ctx):
                 probs_idx.append("indexed store on a path where `i < k` is not refuted (reservoir may be shorter than k)")
             # index term
             idx = None
-            for b in [x for x in p.events if x["kind"] == "write" and x["how"] == "borrow" and x.get("name") == "index_mut" and self_field(x) == "reservoir"]:
+            for b in [x for x in p.events if x["kind"] == "write" and x.get("name") in ("index_mut", "get_mut") and self_field(x) == "reservoir"]:
                 idx = b["args"][1]
             if idx is None:
                 probs_idx.append("store without a recognisable index")
                 continue
-            in_range = fv(fd, mk("Lt", idx, k_f)) is True
+            from .common import full_reservoir_facts
+            fd_full = {repr(c_): t_ for c_, t_ in full_reservoir_facts(facts)}
+            in_range = fv(fd, mk("Lt", idx, k_f)) is True or fv(fd_full, mk("Lt", idx, k_f)) is True
             if idx[0] == "call" and idx[1].endswith("gen_range") and len(idx[2]) >= 2:
                 r = idx[2][1]
                 if r[0] == "adt" and r[1] == "std::ops::Range":
@@ -135,6 +137,53 @@ def run(ctx):
                 okr = True
             ctx.check(okr, "R18-no-panic", "%s:gen_range(%s)" % (add.key, fmt(r)), t.span, "range %s is non-empty (k >= 1, i >= k on this path)" % fmt(r),
                       "gen_range over %s may be empty" % fmt(r))
+    # ln() of a uniform draw must not see 0: ln 0 = -inf makes the gap saturate at usize::MAX and `i + gap` overflows (a panic with
+    # overflow checks on). A draw from [0,1) is fine as ln(1 - x), a draw from (0,1] as ln(x); the other two combinations are not.
+    from .common import all_writes
+    from ..terms import subterms as _subterms
+
+    def draw_interval(x):
+        """(includes 0?, includes 1?) of a unit-interval draw, or None"""
+        if x[0] != "call":
+            return None
+        nm_ = x[1].rsplit("::", 1)[-1]
+        if nm_ == "gen_range" and len(x[2]) >= 2:
+            r_ = x[2][1]
+            if r_[0] == "adt" and r_[1] in ("std::ops::Range", "std::ops::RangeInclusive"):
+                d_ = dict(r_[3])
+                if d_.get("start") == const(0.0) and d_.get("end") == const(1.0):
+                    return (True, r_[1] != "std::ops::Range")
+            if r_[0] == "call" and r_[1].endswith("RangeInclusive::new") and r_[2][0] == const(0.0) and r_[2][1] == const(1.0):
+                return (True, True)
+            return None
+        if nm_ == "sample" and len(x[2]) >= 2 and x[2][1][0] == "adt":
+            dist = x[2][1][1].rsplit("::", 1)[-1]
+            return {"OpenClosed01": (False, True), "Open01": (False, False), "Standard": (True, False)}.get(dist)
+        if nm_ == "gen" and len(x[2]) >= 1:
+            return (True, False)
+        return None
+    n_ln = 0
+    for w in all_writes(ctx, add):
+        if w.get("value") is None:
+            continue
+        for lt in _subterms(w["value"]):
+            if not (lt[0] == "op" and lt[1] == "ln" and len(lt[2]) == 1):
+                continue
+            a_ = lt[2][0]
+            draws_ = [y for y in _subterms(a_) if draw_interval(y) is not None]
+            if not draws_:
+                continue
+            n_ln += 1
+            inc0, inc1 = draw_interval(draws_[0])
+            if a_ == draws_[0]:
+                zero = inc0
+            elif a_ == mk("Sub", const(1.0), draws_[0]):
+                zero = inc1
+            else:
+                zero = True
+            ctx.check(not zero, "R18-no-panic", "%s:ln-of-draw" % add.key, w.get("span") or add, "ln(%s) never sees 0" % fmt(a_)[:80],
+                      "ln(%s) can be ln(0) = -inf: the skip length saturates at usize::MAX and `i + gap` overflows — add() panics on one RNG outcome" % fmt(a_)[:120])
+    ctx.floor("R18-no-panic:ln", n_ln, 1, "ln() of a uniform draw in the gap computation")
     for nm, exp in (("i", i_f), ("k", k_f), ("is_empty", mk("Eq", const(0), i_f)), ("reservoir", ("field", selfp, "reservoir"))):
         f = ctx.anchor(RS + "::" + nm)
         if f is not None:
